@@ -145,6 +145,62 @@ def abandonment_window_not_derived(ctx: Ctx, rid: str = "C05.R18") -> None:
         raise AnalysisError("no call site of GarbageCollector.collect found")
 
 
+def _union_parts(ctx: Ctx, f: FunctionInfo, e: Optional[ast.AST], at: int, depth: int = 0) -> Tuple[List[Tuple[ast.AST, int]], bool]:
+    """(leaf set expressions, pure) of a set-valued expression: `a | b`, `a.union(b, c)`, `set(a)`, a local built from those,
+    and in-place extensions (`s.update(x)`, `s |= x`) that dominate the use.  pure is False when an intersection / difference
+    (`&`, `-`, .intersection, .difference, .discard ...) takes part."""
+    g = ctx.cfg(f)
+    if e is None or depth > 6:
+        return [], True
+    if isinstance(e, ast.BinOp):
+        if isinstance(e.op, ast.BitOr):
+            l, pl = _union_parts(ctx, f, e.left, at, depth + 1)
+            r, pr = _union_parts(ctx, f, e.right, at, depth + 1)
+            return l + r, pl and pr
+        return [(e, at)], False
+    if isinstance(e, ast.Call) and isinstance(e.func, ast.Attribute) and e.func.attr == "union":
+        out, pure = _union_parts(ctx, f, e.func.value, at, depth + 1)
+        for a in e.args:
+            o2, p2 = _union_parts(ctx, f, a, at, depth + 1)
+            out, pure = out + o2, pure and p2
+        return out, pure
+    if isinstance(e, ast.Call) and isinstance(e.func, ast.Attribute) and e.func.attr in ("intersection", "difference", "symmetric_difference"):
+        return [(e, at)], False
+    if isinstance(e, ast.Call) and isinstance(e.func, ast.Name) and e.func.id in ("set", "frozenset") and len(e.args) == 1:
+        return _union_parts(ctx, f, e.args[0], at, depth + 1)
+    if isinstance(e, ast.Name):
+        dom = ctx.dom(f, NORMAL)
+        out: List[Tuple[ast.AST, int]] = [(e, at)]
+        pure = True
+        for d in ctx.rd(f).reaching(at, e.id):
+            dn = g.nodes[d]
+            if d != g.entry and isinstance(dn.ast, ast.Assign) and not isinstance(dn.ast.value, (ast.Name,)) \
+                    and isinstance(dn.ast.value, (ast.BinOp, ast.Call)) and len(dn.ast.targets) == 1 and isinstance(dn.ast.targets[0], ast.Name):
+                o2, p2 = _union_parts(ctx, f, dn.ast.value, d, depth + 1)
+                if len(o2) >= 2 or not p2:
+                    out, pure = out + o2, pure and p2
+        for n in g.nodes:
+            a = n.ast
+            if n.id == at or n.id not in dom[at]:
+                continue
+            if n.kind == "call" and isinstance(a, ast.Call) and isinstance(a.func, ast.Attribute) and isinstance(a.func.value, ast.Name) \
+                    and a.func.value.id == e.id:
+                if a.func.attr == "update" and a.args and not isinstance(a.args[0], (ast.GeneratorExp, ast.ListComp, ast.SetComp)):
+                    for x in a.args:
+                        o2, p2 = _union_parts(ctx, f, x, n.id, depth + 1)
+                        out, pure = out + o2, pure and p2
+                elif a.func.attr in ("intersection_update", "difference_update", "discard", "remove", "clear", "pop"):
+                    pure = False
+            if n.kind == "stmt" and isinstance(a, ast.AugAssign) and isinstance(a.target, ast.Name) and a.target.id == e.id:
+                if isinstance(a.op, ast.BitOr):
+                    o2, p2 = _union_parts(ctx, f, a.value, n.id, depth + 1)
+                    out, pure = out + o2, pure and p2
+                else:
+                    pure = False
+        return out, pure
+    return [(e, at)], True
+
+
 class Contrib:
     """One way elements get into a set variable: `S.add(e)`, `S.update(<iterable / comprehension>)`, `S = {e for ...}`."""
     def __init__(self, sname: str, node: Node, elt: ast.AST, gens: List[Tuple[Optional[str], ast.AST]], filters: List[ast.AST]) -> None:
@@ -168,6 +224,10 @@ def contributions(ctx: Ctx, f: FunctionInfo) -> List[Contrib]:
         if n.kind == "call" and isinstance(a, ast.Call) and isinstance(a.func, ast.Attribute) and a.func.attr in ("add", "update") \
                 and a.args and isinstance(a.func.value, ast.Name):
             cp = comp_parts(a.args[0]) if a.func.attr == "update" else None
+            if cp is None and a.func.attr == "update" and any(
+                    isinstance(x, ast.Call) and (dotted(x.func) or "").endswith("_load_inflight_protection")
+                    for x in ctx.slicer(f).origins(a.args[0], n.id)["calls"]):
+                continue  # `reachable.update(protected)`: the keep-set union done in place (judged by R3), not a reachability source
             if cp is not None:
                 out.append(Contrib(a.func.value.id, n, cp[0], cp[1], cp[2]))
             else:
@@ -560,6 +620,15 @@ def r3(ctx: Ctx, rid: str) -> None:
         has_prot = any(isinstance(x, ast.Call) and (dotted(x.func) or "").endswith("_load_inflight_protection") for x in org["calls"])
         has_reach = bool(set(reach_sets(ctx).values()) & org["names"])
         union = isinstance(arg, ast.BinOp) and isinstance(arg.op, ast.BitOr) or (isinstance(arg, ast.Call) and "union" in norm_text(arg.func))
+        if not (has_prot and has_reach and union):
+            # the same union built another way: a.union(b, c), an earlier `keep = a | b`, or the set extended in place
+            # (`reachable.update(protected)`) before it is handed over
+            leaves, pure = _union_parts(ctx, col, arg, c.id)
+            lorg = [(x, sl.origins(x, at_)) for x, at_ in leaves]
+            has_prot = any(any(isinstance(y, ast.Call) and (dotted(y.func) or "").endswith("_load_inflight_protection") for y in o["calls"] | ({x} if isinstance(x, ast.Call) else set()))
+                           for x, o in lorg)
+            has_reach = any((set(reach_sets(ctx).values()) & (o["names"] | set(names_in(x)))) for x, o in lorg)
+            union = pure and len(leaves) >= 2
         ctx.ob(rid, col, "reachable_set argument = reachable ∪ protected", c, has_prot and has_reach and bool(union),
                "in-flight protection and reachability are both applied to this prefix (no intersection / difference)")
     lp = ctx.fn(GC + "._load_inflight_protection")
